@@ -192,5 +192,5 @@ def check(case):
 
 
 def phases(tier):
-    n = {"quick": 16 * 2000, "thorough": 16 * 40000}[tier]
+    n = {"quick": 16 * 1600, "thorough": 16 * 40000}[tier]
     return [dict(name="main", kind="hypothesis", strategy=cases(tier), check=check, examples=n)]
